@@ -136,6 +136,15 @@ FB_RECIPES = {
 }
 
 
+FUZZ = {"runs": 4000, "max_seconds": 240}
+
+
+def fuzz_strategy():
+    """one strategy over all strata (for the coverage-guided supplement of the thorough tier)"""
+    ss = [s.payload for s in strata("thorough")]
+    return st.one_of(*ss)
+
+
 def strata(tier):
     q = tier == "quick"
     out = []
